@@ -240,9 +240,11 @@ impl<'p> CoroutinePool<'p> {
         // happen while the map is being iterated)
         let task_ids: Vec<u64> = self.waits.iter().map(|r| *r.key()).collect();
         for task_id in task_ids {
+            // a waiter may have registered after its task finished: keep the real result
             _ = self
                 .results
-                .insert(task_id, Err("The coroutine pool has stopped"));
+                .entry(task_id)
+                .or_insert(Err("The coroutine pool has stopped"));
             self.notify(task_id);
         }
     }
